@@ -48,7 +48,9 @@ enum Obj {
 struct Borrow {
     u: usize,
     off_at_borrow: usize,
-    sa: ScratchArena<'static>,
+    /// boxed: objects keep `&Arena` references into the borrow (in debug builds the wrapper arena is
+    /// stored inline), so it must not move when the stack of borrows grows
+    sa: Box<ScratchArena<'static>>,
 }
 
 struct World {
@@ -106,8 +108,8 @@ impl World {
         }
         // newest borrow of u
         self.borrows.iter().rev().find(|b| b.u == u).map(|b| {
-            let a: &Arena = &b.sa;
-            // SAFETY: the borrow outlives every use (objects are dropped before the borrow is popped)
+            let a: &Arena = &**b.sa;
+            // SAFETY: the borrow is boxed (stable address) and outlives every use (objects are dropped before the borrow is popped)
             unsafe { std::mem::transmute::<&Arena, &'static Arena>(a) }
         })
     }
@@ -220,6 +222,9 @@ fn run_history(case: &Value, w: &mut World) -> V {
     let ops = case["ops"].as_array().unwrap();
     let fail_ops: Vec<usize> =
         case["fail_commit_at_ops"].as_array().map(|a| a.iter().map(|x| x.as_u64().unwrap() as usize).collect()).unwrap_or_default();
+    // systematic sweep: these commit calls (1-based, counted over the whole history) fail
+    let sweep: Vec<u64> = case["fail_commit_calls"].as_array().map(|a| a.iter().map(|x| x.as_u64().unwrap()).collect()).unwrap_or_default();
+    fake_libc::with_vm(|vm| vm.fail_commit_at = sweep.clone());
     for (step, op) in ops.iter().enumerate() {
         let kind = op[0].as_str().unwrap_or("");
         let g = |k: usize| op[k].as_u64().unwrap_or(0);
@@ -227,9 +232,13 @@ fn run_history(case: &Value, w: &mut World) -> V {
         let usable = w.usable();
         // arm an injected commit failure for this operation
         let armed = fail_ops.contains(&step) && matches!(kind, "alloc" | "grow" | "uninit");
-        fake_libc::with_vm(|vm| vm.fail_commit_at.clear());
+        // per-operation faults are disarmed again; the swept call numbers stay
+        fake_libc::with_vm(|vm| vm.fail_commit_at.retain(|c| sweep.contains(c)));
         if armed {
-            fake_libc::with_vm(|vm| vm.fail_commit_at = vec![vm.commit_calls + 1]);
+            fake_libc::with_vm(|vm| {
+                let next = vm.commit_calls + 1;
+                vm.fail_commit_at.push(next);
+            });
         }
         let failed_before = fake_libc::with_vm(|vm| vm.failed_commits).unwrap_or(0);
         match kind {
@@ -589,9 +598,9 @@ fn run_history(case: &Value, w: &mut World) -> V {
                     None => arena::scratch_arena(None),
                     Some(c) => arena::scratch_arena(Some(w.handle(c).unwrap())),
                 };
-                let sa: ScratchArena<'static> = unsafe { std::mem::transmute(sa) };
+                let sa: Box<ScratchArena<'static>> = Box::new(unsafe { std::mem::transmute::<ScratchArena<'_>, ScratchArena<'static>>(sa) });
                 // which global arena did we get? allocate nothing: compare identity through contains_ptr
-                let a: &Arena = &sa;
+                let a: &Arena = &**sa;
                 let got = if a.contains_ptr(w.us[g0].base as *const u8) { g0 } else { g0 + 1 };
                 if !a.contains_ptr(w.us[got].base as *const u8) {
                     return bad("scratch-identity", format!("step {step}: scratch arena is neither global arena"));
@@ -652,7 +661,13 @@ impl Engine for C11 {
     }
 
     fn generate(&self, seed: u64, i: u64, tier: Tier) -> Value {
-        let mut r = Rng::stream(seed, self.tag(), i);
+        // one case in eight belongs to a systematic sweep: 32 consecutive sweep cases share one base
+        // history and fail its 1st, 2nd, ... 32nd commit call in turn
+        let (mut r, sweep_call) = if i % 8 == 7 {
+            (Rng::stream(seed, self.tag() ^ 0x5ee9, i / 256), Some((i % 256) / 8 + 1))
+        } else {
+            (Rng::stream(seed, self.tag(), i), None)
+        };
         let narenas = r.usize(1, 2);
         let caps: Vec<usize> = (0..narenas).map(|_| r.pick(&[1usize, 64 << 10, 128 << 10, 256 << 10, 1 << 20])).collect();
         let maxcap = *caps.iter().max().unwrap();
@@ -704,7 +719,13 @@ impl Engine for C11 {
         if r.chance(5) {
             fail_reserve.push(r.range(1, narenas as u64));
         }
-        json!({"caps": caps, "ops": ops, "fail_commit_at_ops": fail_ops, "fail_reserve_at": fail_reserve})
+        let mut case = json!({"caps": caps, "ops": ops, "fail_commit_at_ops": fail_ops, "fail_reserve_at": fail_reserve});
+        if let Some(k) = sweep_call {
+            case["fail_commit_at_ops"] = json!([]);
+            case["fail_reserve_at"] = json!([]);
+            case["fail_commit_calls"] = json!([k]);
+        }
+        case
     }
 
     fn execute(&self, case: &Value) -> RunResult {
@@ -808,6 +829,7 @@ impl Engine for C11 {
         res.count("operations", s.ops);
         res.count("requests_that_failed_cleanly", s.clean_failures);
         res.count("fault_commit_refused", s.injected_commit_failures);
+        res.count("cases_in_systematic_commit_failure_sweep", u64::from(case["fail_commit_calls"].is_array()));
         res.count("fault_reserve_refused", s.injected_reserve_failures);
         res.count("grows_in_place", s.grows_in_place);
         res.count("grows_moved_non_tail", s.grows_moved);
@@ -867,6 +889,11 @@ impl Engine for C11 {
         }
         if !case["fail_commit_at_ops"].as_array().unwrap().is_empty() {
             v.push(set("fail_commit_at_ops", json!([])));
+        }
+        if let Some(k) = case["fail_commit_calls"][0].as_u64()
+            && k > 1
+        {
+            v.push(set("fail_commit_calls", json!([k - 1])));
         }
         if !case["fail_reserve_at"].as_array().unwrap().is_empty() {
             v.push(set("fail_reserve_at", json!([])));
